@@ -52,14 +52,27 @@ func dataMsg(domain uint32, n uint32) []byte {
 	// two fields: counter (u32) + a variable-length string to vary message sizes
 	pad := bytes.Repeat([]byte{'x'}, int(n%97))
 	body := append(refipfix.PU(4, uint64(n)), append([]byte{byte(len(pad))}, pad...)...)
+	oct := octetsFor(domain, n)
+	body = append(body, byte(len(oct)))
+	body = append(body, oct...)
 	return refipfix.BuildMessage(domain, n, 1, 700, body)
+}
+
+// octetsFor is the octetArray payload of message n of a client (checked on delivery and
+// again after later messages were delivered).
+func octetsFor(domain, n uint32) []byte {
+	b := make([]byte, 8+int(n%5))
+	for i := range b {
+		b[i] = byte(domain>>uint(8*(i%4))) ^ byte(n) ^ byte(i*7)
+	}
+	return b
 }
 
 func main() {
 	c := hx.New("C12")
 	defer c.Finish()
 	lib.Init()
-	elems = []regtable.Elem{lib.CustomElems[11], lib.CustomElems[8]}
+	elems = []regtable.Elem{lib.CustomElems[11], lib.CustomElems[8], lib.CustomElems[7]}
 	ca := certs.NewCA("verif-ca")
 	server := certs.Issue(ca, certs.Opts{CN: "collector", IPs: []string{"127.0.0.1"}})
 	pool := x509.NewCertPool()
@@ -260,7 +273,7 @@ func oneRun(c *hx.Ctx, k int, r *rand.Rand, proto string, nclients int, stopDuri
 				n = 0
 			} else {
 				n = int(d.Seq)
-				if len(d.Out.Records) != 1 || len(d.Out.Records[0]) != 2 || binary.BigEndian.Uint32(d.Out.Records[0][0]) != d.Seq || len(d.Out.Records[0][1]) != int(d.Seq%97) {
+				if len(d.Out.Records) != 1 || len(d.Out.Records[0]) != 3 || binary.BigEndian.Uint32(d.Out.Records[0][0]) != d.Seq || len(d.Out.Records[0][1]) != int(d.Seq%97) || !bytes.Equal(d.Out.Records[0][2], octetsFor(cl.id, d.Seq)) {
 					fail("delivered-content", fmt.Sprintf("client %#x delivery %d (counter %d): content does not match what that message carried", cl.id, i, d.Seq), nil)
 					return 0
 				}
@@ -284,6 +297,10 @@ func oneRun(c *hx.Ctx, k int, r *rand.Rand, proto string, nclients int, stopDuri
 			}
 			lastN = n
 		}
+	}
+	if m := coll.Mutations(); len(m) > 0 {
+		fail("delivered-message-changed-later", m[0], nil)
+		return 0
 	}
 	c.Add("messages_sent", int64(sentTotal))
 	c.Add("messages_delivered", int64(deliveredTotal))
